@@ -197,6 +197,9 @@ func NewStoreWithDB(config lib.Config, db *pebble.DB, metrics *lib.Metrics, log 
 // CONTRACT: Read only stores cannot be copied or written to
 func (s *Store) NewReadOnly(queryVersion uint64) (lib.StoreI, lib.ErrorI) {
 	var stateReader *Txn
+	// hold the commit lock while the version is compared and the snapshots are taken: Commit() applies its batch
+	// before it advances the version, so without the lock a view of height v could be served height v+1
+	s.mu.Lock()
 	// make a reader for the specified version
 	hssReader := NewVersionedStore(s.db.NewSnapshot(), nil, queryVersion)
 	// if the query is for the latest version use the HSS over the LSS
@@ -206,6 +209,7 @@ func (s *Store) NewReadOnly(queryVersion uint64) (lib.StoreI, lib.ErrorI) {
 	} else {
 		stateReader = NewTxn(hssReader, nil, historicStatePrefix, false, false, true)
 	}
+	s.mu.Unlock()
 	// return the store object
 	return &Store{
 		version:    queryVersion,
